@@ -2,6 +2,7 @@ package main
 
 import (
 	"fmt"
+	"go/token"
 	"go/types"
 	"sort"
 	"strings"
@@ -33,6 +34,29 @@ func ownedSlice(v ssa.Value, depth int) bool {
 			n := f.String()
 			if strings.HasPrefix(n, "slices.Clone") || n == "strings.Split" || n == "bytes.Clone" || n == "strings.Fields" || n == "strings.SplitN" {
 				return true
+			}
+		}
+	case *ssa.UnOp:
+		// a slice read from a field of a struct this function allocated, when every value stored into that
+		// field is itself an owned slice (e.g. &T{F: make(...)} ... t.F[i] = v)
+		if fa, ok := x.X.(*ssa.FieldAddr); ok && x.Op == token.MUL {
+			if a, ok := fa.X.(*ssa.Alloc); ok && a.Referrers() != nil {
+				stores := 0
+				for _, r := range *a.Referrers() {
+					fa2, ok := r.(*ssa.FieldAddr)
+					if !ok || fa2.Field != fa.Field || fa2.Referrers() == nil {
+						continue
+					}
+					for _, r2 := range *fa2.Referrers() {
+						if st, ok := r2.(*ssa.Store); ok && st.Addr == fa2 {
+							if !ownedSlice(st.Val, depth+1) {
+								return false
+							}
+							stores++
+						}
+					}
+				}
+				return stores > 0
 			}
 		}
 	case *ssa.Convert: // []byte(string)
